@@ -109,6 +109,9 @@ structure AddrCfg where
   pref : Str
   minLen : Nat
   maxLen : Nat
+  /-- the string is the EIP-55 (Keccak-256 checksum) spelling of a 0x hex address — Keccak is not modelled; supplied by
+  the harness (`eip55` lines); only the lenient decoder reads it -/
+  eip55 : Str → Bool := fun _ => false
 
 /-- `sdk.AccAddressFromBech32` -/
 def accAddress (cfg : AddrCfg) (s : Str) : Option (List Nat) :=
@@ -123,16 +126,63 @@ def accAddress (cfg : AddrCfg) (s : Str) : Option (List Nat) :=
 /-- operand of an address comparison: the decoded bytes, empty when the string does not decode (`addr, _ := …`) -/
 def decodeOrEmpty (cfg : AddrCfg) (s : Str) : List Nat := (accAddress cfg s).getD []
 
+/-! ## the other decoders a guard can put in front of its comparison (round 4) -/
+
+/-- `common.BytesToAddress`: the last 20 bytes, left-padded with zeros -/
+def evmAddr (bz : List Nat) : List Nat :=
+  let t := bz.drop (bz.length - 20)
+  List.replicate (20 - t.length) 0 ++ t
+
+def hexVal (c : Nat) : Option Nat :=
+  if 48 ≤ c ∧ c ≤ 57 then some (c - 48)
+  else if 97 ≤ c ∧ c ≤ 102 then some (c - 87)
+  else if 65 ≤ c ∧ c ≤ 70 then some (c - 55)
+  else none
+
+def hexBytes : List Nat → Option (List Nat)
+  | [] => some []
+  | [_] => none
+  | a :: b :: rest =>
+    match hexVal a, hexVal b, hexBytes rest with
+    | some x, some y, some r => some ((x * 16 + y) :: r)
+    | _, _, _ => none
+
+/-- `fxtypes.ParseAddress`: `bech32.DecodeAndConvert` (no prefix check, no length check), else
+`contract.ValidateEthereumAddress` (42 characters, `0x`, hex digits, EIP-55 spelling) and `common.HexToAddress` -/
+def parseAddress (cfg : AddrCfg) (s : Str) : Option (List Nat) :=
+  match (bechDecode s).bind (fun p => convert5to8 p.2) with
+  | some bz => some bz
+  | none => if s.length == 42 && s.take 2 == [48, 120] && cfg.eip55 s then hexBytes (s.drop 2) else none
+
+/-- the bytes a decoder yields for an operand; what a failed decoding leaves in the variable (`nil`, and for `evm20`
+the zero address `common.BytesToAddress(nil)`) -/
+def decodeOr (cfg : AddrCfg) : Dec → Str → List Nat
+  | .acc, s => decodeOrEmpty cfg s
+  | .lenient, s => (parseAddress cfg s).getD []
+  | .evm20, s => evmAddr (decodeOrEmpty cfg s)
+
+def decOk (cfg : AddrCfg) : Dec → Str → Bool
+  | .acc, s => (accAddress cfg s).isSome
+  | .lenient, s => (parseAddress cfg s).isSome
+  | .evm20, s => (accAddress cfg s).isSome
+
 /-! ## evaluation of guard expressions -/
 
 /-- comparison kinds an authority check can use -/
-inductive CmpK where | strict | fold | addr
+inductive CmpK where | strict | fold | addr | lenient | evm20
   deriving DecidableEq, Repr
 
 def relK (cfg : AddrCfg) : CmpK → Str → Str → Bool
   | .strict, a, b => a == b
   | .fold, a, b => foldEq a b
   | .addr, a, b => decodeOrEmpty cfg a == decodeOrEmpty cfg b
+  | .lenient, a, b => decodeOr cfg .lenient a == decodeOr cfg .lenient b
+  | .evm20, a, b => decodeOr cfg .evm20 a == decodeOr cfg .evm20 b
+
+def CmpK.ofDec : Dec → CmpK
+  | .acc => .addr
+  | .lenient => .lenient
+  | .evm20 => .evm20
 
 /-- everything a guard can depend on besides the request's authority -/
 structure Env where
@@ -147,6 +197,8 @@ structure Env where
   listNonEmpty : String → Bool      -- the request's list field is non-empty
   payloadGood : Bool                -- every entry of every list of the payload passes the handler's entry validation
   clob : Nat → Option Bool          -- other assignments to a named result: the value assigned, or none
+  stateModAddr : String → Str := fun _ => []
+      -- the address string of a module account as the x/auth STATE has it (`GetModuleAccount(ctx, name).GetAddress().String()`)
 
 def evalS (env : Env) (auth : Str) : SExpr → Str
   | .reqAuthority => auth
@@ -156,6 +208,7 @@ def evalS (env : Env) (auth : Str) : SExpr → Str
   | .param i => env.otherS ("param" ++ toString i)
   | .lit s => strOf s
   | .other src => env.otherS src
+  | .moduleAccInState n => env.stateModAddr n
 
 def substS (args : List SExpr) : SExpr → SExpr
   | .param i => args.getD i (.param i)
@@ -171,6 +224,8 @@ def substB (args : List SExpr) : BExpr → BExpr
   | .or x y => .or (substB args x) (substB args y)
   | .call h as => .call h (as.map (substS args))
   | .other i s => .other i s
+  | .decEq d a b => .decEq d (substS args a) (substS args b)
+  | .decodes d a => .decodes d (substS args a)
 
 def substH (args : List SExpr) : HStmt → HStmt
   | .retIf c v => .retIf (substB args c) v
@@ -194,6 +249,8 @@ def evalBWith (env : Env) (auth : Str) (callVal : String → List SExpr → Bool
   | .or x y => evalBWith env auth callVal x || evalBWith env auth callVal y
   | .call h as => callVal h as
   | .other i _ => env.otherB i
+  | .decEq d a b => relK env.cfg (CmpK.ofDec d) (evalS env auth a) (evalS env auth b)
+  | .decodes d a => decOk env.cfg d (evalS env auth a)
 
 /-- conditions inside a helper body: further helper calls are not followed -/
 def evalB0 (env : Env) (auth : Str) : BExpr → Bool := evalBWith env auth (fun h _ => env.callB h)
@@ -249,6 +306,7 @@ def atomsWith (callAtoms : Bool → String → List SExpr → Option (List Atom)
   | false, .ne a b => some [mkAtom .strict a b]
   | true, .equalFold a b => some [mkAtom .fold a b]
   | true, .addrEq a b => some [mkAtom .addr a b]
+  | true, .decEq d a b => some [mkAtom (CmpK.ofDec d) a b]
   | p, .not x => atomsWith callAtoms (!p) x
   | true, .or x y =>
     match atomsWith callAtoms true x, atomsWith callAtoms true y with
@@ -318,6 +376,7 @@ structure World (σ : Type) where
   routeOk : Bool                                   -- the crosschain router has a route for the message's chain
   pick : Nat                                       -- which of several possible forward targets is the dynamic type
   unknown : σ → Res × σ                            -- unresolved method / recursion too deep: anything can happen
+  ensureAcc : String → σ → σ := fun _ s => s       -- `GetModuleAccount`: creates the named module account when it is missing
 
 def execBody {σ : Type} (hs : List Helper) (env : Env) (auth : Str) (W : World σ) (T m : String)
     (call : String → String → σ → Res × σ) : List Stmt → σ → Res × σ
@@ -333,6 +392,7 @@ def execBody {σ : Type} (hs : List Helper) (env : Env) (auth : Str) (W : World 
     match targets[W.pick % targets.length]? with
     | some T' => call T' m' s
     | none => W.unknown s
+  | .ensureModuleAcc n _ :: rest, s => execBody hs env auth W T m call rest (W.ensureAcc n s)
 
 /-- run method `m` on a value of concrete type `T` -/
 def exec {σ : Type} (P : Program) (env : Env) (auth : Str) (W : World σ) : Nat → String → String → σ → Res × σ
@@ -342,10 +402,34 @@ def exec {σ : Type} (P : Program) (env : Env) (auth : Str) (W : World σ) : Nat
     | none => W.unknown s
     | some impl => execBody P.helpers env auth W impl.recv impl.method (exec P env auth W f) impl.body s
 
-/-- decision procedure: the body starts (after statements that cannot touch state) with an authority guard of kind `c`,
-or delegates to implementations that all do -/
+/-- operands that are values of the request / the keeper / constants (no call that could touch state) -/
+def pureS : SExpr → Bool
+  | .other _ => false
+  | .moduleAccInState _ => false
+  | _ => true
+
+/-- a condition made only of comparisons and decodings of such operands: evaluating it cannot touch state (round 4) -/
+def pureB : BExpr → Bool
+  | .ne a b => pureS a && pureS b
+  | .eq a b => pureS a && pureS b
+  | .equalFold a b => pureS a && pureS b
+  | .addrEq a b => pureS a && pureS b
+  | .decEq _ a b => pureS a && pureS b
+  | .decodes _ a => pureS a
+  | .not x => pureB x
+  | .and x y => pureB x && pureB y
+  | .or x y => pureB x && pureB y
+  | .call _ _ => false
+  | .other _ _ => false
+
+/-- decision procedure: the body starts (after statements that cannot touch state, and after rejecting `if`s whose
+condition cannot touch state — `authority, err := decode(req.Authority); if err != nil { return … }`) with an authority
+guard of kind `c`, or delegates to implementations that all do -/
 def protectedBody (hs : List Helper) (chk : String → String → Option CmpK) : List Stmt → Option CmpK
-  | .rejectIf g :: _ => guardCmp hs g
+  | .rejectIf g :: rest =>
+    match guardCmp hs g with
+    | some c => some c
+    | none => if pureB g then protectedBody hs chk rest else none
   | .nop _ :: rest => protectedBody hs chk rest
   | .forward _ targets m :: _ =>
     match targets with
